@@ -5,8 +5,7 @@
         create /verif/mutants/<PROP>/<name>.patch by replacing exactly one
         occurrence of <old> by <new> in <file> (relative to the repo root)
   mut.py test <PROP>|all [name]
-        for each patch: scratch copy of /repo under /tmp, apply, `go build ./...`
-        (the mutant must compile), run `psv check <PROP> --repo <copy>`, require
+        for each patch: scratch copy of /repo under /tmp, apply, run `psv check <PROP> --repo <copy>`, require the tree to type-check,
         exit 1 and a `violated:` line containing the rule id and the substring
         from the `# expects:` header; the scratch copy is removed afterwards.
 
@@ -53,10 +52,12 @@ def test_one(prop, patch, psv=None, quiet=False):
         r = subprocess.run(["patch", "-p1", "-s", "-i", patch], cwd=d, capture_output=True, text=True)
         if r.returncode != 0:
             return dict(patch=patch, ok=None, why="patch does not apply to the current tree (skipped): " + r.stdout.strip()[:200])
-        r = subprocess.run(["go", "build", "./..."], cwd=d, env=ENV, capture_output=True, text=True)
-        if r.returncode != 0:
-            return dict(patch=patch, ok=False, why="mutant does not compile: " + r.stderr.strip()[:300])
+        # psv type-checks the whole module from source (go/types); a mutant that does
+        # not type-check is rejected there, so no separate `go build` (which would
+        # link every main package) is needed.
         r = subprocess.run([psv, "check", prop, "--repo", d, "--no-evidence", "--verif", VERIF], capture_output=True, text=True, env=ENV)
+        if r.returncode == 2 and "does not type-check" in r.stdout:
+            return dict(patch=patch, ok=False, why="mutant does not compile: " + r.stdout.strip()[:300])
         hit = [l for l in r.stdout.splitlines() if l.startswith("violated:") and rule in l and sub in l]
         ok = r.returncode == 1 and len(hit) > 0
         why = hit[0][:300] if hit else ("exit %d; " % r.returncode) + " | ".join(l[:160] for l in r.stdout.splitlines() if l.startswith(("violated:", "ERROR")))[:600]
